@@ -263,7 +263,7 @@ theorem foreign_variable_refused (t : Tmpl) (p : POp) (hp : p.isParam = true)
   unfold tstep
   simp [hp, hv]
 
-/-- Finding F40 (owned by C09, repaired in /repo): **any refused call that carries a variable
+/-- Finding F41 (owned by C09, repaired in /repo): **any refused call that carries a variable
 leaves the template exactly as it was** — unknown variable or failed store-time check alike; in
 particular a sequence that was not parametrized does not become so (`verify_parametrization`
 puts `_building` back when the call raises). -/
@@ -276,7 +276,7 @@ theorem refused_call_keeps_template (t : Tmpl) (p : POp) (hp : p.isParam = true)
     · rfl
     · rename_i hs
       rw [hs] at h
-      split at h <;> cases h
+      cases p <;> simp at h
   · have hv' : varsDeclared t p = false := by simpa using hv
     simp [hp, hv']
 
